@@ -3,10 +3,11 @@ From Coq Require Extraction ExtrOcamlBasic ExtrOcamlNativeString.
 From Coq Require Import ZArith.
 From Demes Require Import Base.Num Base.Py Model.MDM Model.Codec Model.SizeAt
   Model.MigMat Model.Ancestry Model.InGen Model.Rename Model.Close Model.Resolve Model.Simplify Model.IO Model.Validb Model.MsOpt Model.ToMs Model.FromMs Model.FloatStr
-  Spec.MsSem Spec.SemEquiv.
+  Spec.MsSem Spec.SemEquiv Model.Steps.
 Extraction Language OCaml.
 Extraction "model.ml" size_at deme_of_jv graph_of_jv asdict jv_of_index isclose pysum
   lookup contains migration_matrices check_migration_rates successors predecessors
   discrete_events in_generations rename_demes close_graph fromdict asdict_simplified
   stringify_infinities unstringify_infinities no_null_values load_post load_asdict_post dump_pre validb to_ms_events check_at check_moves_at from_ms build_doc ms_at ms_moves norm_mig ms_size_of alive fixed10 check_graphs_at check_gmoves_at
+  steps_in_generations steps_asdict steps_events steps_migmat steps_fromdict steps_to_ms gsize
   Z.add Z.mul Z.sub Z.opp Z.abs Z.div_eucl Pos.succ.
